@@ -24,6 +24,21 @@ def operator_pairs(gen):
     return out
 
 
+def operator_unary_shapes(gen):
+    """every binary operator with a unary expression as its left / right operand and as the operand of a unary operator,
+    each written with the parentheses that are needed and with redundant ones: -> (name, source text of the expression)"""
+    out = []
+    for row in gen.OPS:
+        op = row[1]
+        for u in ('-', 'NOT '):
+            for name, txt in [('unary-left', f'{u}aa1 {op} bb2'), ('unary-left-paren', f'({u}aa1) {op} bb2'),
+                              ('unary-right', f'aa1 {op} {u}bb2'), ('unary-right-paren', f'aa1 {op} ({u}bb2)'),
+                              ('unary-of-binary', f'{u}(aa1 {op} bb2)'), ('unary-of-unary', f'{u}({u}aa1) {op} bb2'),
+                              ('binary-paren-left', f'(aa1 {op} bb2) {op} cc3'), ('binary-paren-right', f'aa1 {op} (bb2 {op} cc3)')]:
+                out.append((f'{name}:{op}:{u.strip()}', txt))
+    return out
+
+
 def wrap_expr(lex, tree):
     """a program around one expression"""
     R = refgrammar
